@@ -841,7 +841,11 @@ def _replaced_functions(j, taken):
     unknown = [f for f in fns if f.get("kind") != "Closure" and f["name"] not in voc and not f["name"].startswith("<") and not f.get("exp") and f["name"] not in taken]
     out = {}
     for n, r in missing.items():
-        hits = [f["name"] for f in unknown if sorted(cur_callers.get(f["name"], ())) == r["callers"] and f["locals"][0]["ty"] == r["ret"]]
+        # (called from the functions that called the known one — or from some of them, when one caller now goes through another)
+        hits = [f["name"] for f in unknown if cur_callers.get(f["name"]) and set(cur_callers[f["name"]]) <= set(r["callers"]) and f["locals"][0]["ty"] == r["ret"]]
+        exact = [h for h in hits if sorted(cur_callers[h]) == r["callers"]]
+        if len(exact) == 1:
+            hits = exact
         others = [m for m, r2 in missing.items() if m != n and r2["callers"] == r["callers"] and r2["ret"] == r["ret"]]
         if len(hits) == 1 and not others:
             out[hits[0]] = n
